@@ -6,6 +6,8 @@ raw state before, exactly; multi-step helpers judged per completed constituent; 
 to expose hidden state (caches) changed by a rejection."""
 from __future__ import annotations
 
+from decimal import Decimal
+
 import json
 
 from mc.checks import opscommon
@@ -115,6 +117,13 @@ class Oracle:
             o1 = kit.apply(ctx, nxt)
             r1 = ctx.raw()
             ctx.restore(baseline)
+            # a zero-balance wallet entry is the same holding as no entry (raw() treats them alike): the comparison run gets the same
+            # entries, so that mere entry presence (the library refuses to debit 0 from a token it has no entry for) is not a difference
+            for k, bal in post_snap["assets"].items():
+                if bal == 0 and k not in ctx.broker.assets:
+                    from demeter import Asset
+
+                    ctx.broker._assets[k] = Asset(k, Decimal(0))
             labels = {o.label: o for o in self.world.alphabet(ctx)}
             if nxt.label in labels:
                 o2 = kit.apply(ctx, labels[nxt.label])
